@@ -123,6 +123,7 @@ type CallRec struct {
 	CSent       int
 	CSendErr    []error
 	CStubDropped bool // Spec.Stub: the generated code would have returned (nil, err)
+	CFinalEv     int  // event number at which the first failing RecvMsg returned
 	CGot        [][]byte
 	CFinal      error
 	CFinalSet   bool
@@ -781,7 +782,14 @@ func (s *Sim) cprog(r *CallRec, st grpc.ClientStream, prog []Op, suffix string) 
 					r.COverrun = true
 				}
 				histMu.Unlock()
-				e.Log("c.recv", "", id, errStr(err))
+				rev := e.Log("c.recv", "", id, errStr(err))
+				if err != nil {
+					histMu.Lock()
+					if r.CFinalEv == 0 {
+						r.CFinalEv = rev
+					}
+					histMu.Unlock()
+				}
 				if err != nil || overrun {
 					break
 				}
